@@ -34,9 +34,10 @@ const (
 	opSetTolerance
 	opBulkAdd // one AddSignatures call with ~1000-2500 unique IDs: crosses the 1000-entry chunk boundaries of rebuild/migrate
 	opMigrate // MigrateFromJSON of a small file (well-formed, with a rejected entry, or truncated) into the open store
+	opMeta    // metadata bookkeeping between signature operations: TouchLastUpdated / SetMetadata / InitializeMetadata
 )
 
-var opNames = []string{"Add", "AddBatch", "Delete", "MarkFP", "Rebuild", "Checkpoint", "Compact", "Reopen", "SetThreshold", "SetTolerance", "BulkAdd", "Migrate"}
+var opNames = []string{"Add", "AddBatch", "Delete", "MarkFP", "Rebuild", "Checkpoint", "Compact", "Reopen", "SetThreshold", "SetTolerance", "BulkAdd", "Migrate", "Meta"}
 
 type storeOp struct {
 	Kind  opKind
@@ -49,7 +50,7 @@ type storeOp struct {
 func (o storeOp) String() string {
 	switch o.Kind {
 	case opBulkAdd:
-		return fmt.Sprintf("BulkAdd(%d unique IDs)", len(o.Sigs))
+		return fmt.Sprintf("BulkAdd(%d entries%s)", len(o.Sigs), o.Notes)
 	case opMigrate:
 		return fmt.Sprintf("Migrate(%d entries, %s)", len(o.Sigs), o.Notes)
 	case opAdd, opAddBatch:
@@ -70,6 +71,8 @@ func (o storeOp) String() string {
 		return "Delete(" + o.ID + ")"
 	case opMarkFP:
 		return "MarkFP(" + o.ID + "," + o.Notes + ")"
+	case opMeta:
+		return "Meta(" + o.Notes + ")"
 	case opSetThreshold, opSetTolerance:
 		return fmt.Sprintf("%s(%v)", opNames[o.Kind], o.F)
 	}
@@ -101,11 +104,11 @@ func genSig(t *vs.Tape, g *genCtx, allowAuto, allowInvalid bool) detection.Signa
 	if allowAuto && t.Chance("sig.auto", 1, 12) {
 		s.ID = ""
 	}
-	s.TopologyHash = th[t.Weighted("sig.topo", 4, 3, 3, 1, 1)]
+	s.TopologyHash = th[t.Weighted("sig.topo", 8, 6, 6, 2, 2, 1)]
 	if allowInvalid && t.Chance("sig.invalid", 1, 25) {
 		s.TopologyHash = ""
 	}
-	s.FuzzyHash = fh[t.Weighted("sig.fuzzy", 3, 4, 2, 1, 1)]
+	s.FuzzyHash = fh[t.Weighted("sig.fuzzy", 6, 8, 4, 2, 2, 1)]
 	s.EntropyScore = poolEntropy[t.Intn(len(poolEntropy), "sig.entropy")]
 	s.EntropyTolerance = poolTol[t.Intn(len(poolTol), "sig.tol")]
 	s.NodeCount = vs.Pick(t, "sig.nodes", 4, 5, 9, 0)
@@ -170,12 +173,27 @@ func genOp(t *vs.Tape, g *genCtx) storeOp {
 		}
 		th := topoHashes()
 		fh := fuzzyHashes()
+		// some bulk calls carry the same ID twice, far apart (entry 3 and the
+		// last entry, more than 1000 entries later): the later entry wins
+		dup := t.Chance("bulk.dup", 1, 2)
+		if dup && n < 1001 {
+			n = 1001
+		}
 		for i := 0; i < n; i++ {
 			op.Sigs = append(op.Sigs, detection.Signature{
 				ID: fmt.Sprintf("U%05d", i), Name: "bulk", Description: fmt.Sprintf("b%d", i), Severity: "LOW", Category: "bulk",
 				TopologyHash: th[i%len(th)], FuzzyHash: fh[i%len(fh)], EntropyScore: poolEntropy[i%len(poolEntropy)], EntropyTolerance: poolTol[i%len(poolTol)],
 				NodeCount: 4, LoopDepth: 1,
 			})
+		}
+		if dup {
+			again := op.Sigs[3]
+			again.Description = "second entry for the same ID"
+			again.TopologyHash = th[(3+1)%len(th)]
+			again.FuzzyHash = fh[(3+2)%len(fh)]
+			again.EntropyScore = poolEntropy[(3+3)%len(poolEntropy)]
+			op.Sigs = append(op.Sigs, again)
+			op.Notes = ", one ID twice"
 		}
 	case opAdd:
 		op.Sigs = []detection.Signature{genSig(t, g, true, true)}
@@ -189,6 +207,8 @@ func genOp(t *vs.Tape, g *genCtx) storeOp {
 	case opMarkFP:
 		op.ID = g.pickID(t)
 		op.Notes = fmt.Sprintf("note%d", g.n)
+	case opMeta:
+		op.Notes = vs.Pick(t, "meta.kind", "touch", "set", "init")
 	case opSetThreshold:
 		op.F = poolThreshold[t.Intn(len(poolThreshold), "op.thr")]
 	case opSetTolerance:
@@ -200,9 +220,9 @@ func genOp(t *vs.Tape, g *genCtx) storeOp {
 // swarmWeights draws the operation mix of one run: every kind gets a base
 // weight and a random subset is boosted or disabled (swarm testing).
 func swarmWeights(t *vs.Tape, crash bool) []int {
-	base := []int{8, 5, 4, 2, 2, 1, 1, 2, 1, 1, 0, 2}
+	base := []int{8, 5, 4, 2, 2, 1, 1, 2, 1, 1, 0, 2, 1}
 	if crash {
-		base = []int{8, 5, 4, 2, 3, 1, 1, 1, 0, 0, 0, 2}
+		base = []int{8, 5, 4, 2, 3, 1, 1, 1, 0, 0, 0, 2, 2}
 	}
 	w := append([]int(nil), base...)
 	// bulk histories are expensive: a small fraction of runs enables them
@@ -429,6 +449,26 @@ func (e *storeEnv) apply(op storeOp, g *genCtx) *vs.Violation {
 		}
 		e.s = s
 		e.c.Inc("reopen")
+	case opMeta:
+		// metadata lives beside the signatures and must not disturb them
+		var err error
+		switch op.Notes {
+		case "touch":
+			err = e.s.TouchLastUpdated()
+		case "set":
+			if err = e.s.SetMetadata("last_scanned_at", "2026-01-01T00:00:00Z"); err == nil {
+				var v string
+				if v, err = e.s.GetMetadata("last_scanned_at"); err == nil && v != "2026-01-01T00:00:00Z" {
+					return vs.Violationf("C06/meta-value", "GetMetadata returned %q after SetMetadata", v)
+				}
+			}
+		default:
+			err = e.s.InitializeMetadata("1.0", "sim")
+		}
+		if err != nil {
+			return vs.Violationf("C06/meta-error", "metadata operation %s: %v", op.Notes, err)
+		}
+		e.c.Inc("meta_ops")
 	case opSetThreshold:
 		e.s.SetThreshold(op.F)
 		m.threshold = op.F
